@@ -108,6 +108,18 @@ Catalogue == {
     Base \o <<EMPTYV("a"), MET("a", <<"U">>, "none", NoDims, "none"), EMPTYV("b")>>,
     Base \o <<MET("", <<"U">>, "none", NoDims, "none")>>,
     Base \o <<STR("_aws", "plain"), MET("a", <<"U">>, "none", NoDims, "none")>>,
+    \* every listed defect injected alone into an otherwise valid entry
+    Base \o <<STR("d2", "plain"), MET("a", <<"U">>, "none", K1V1, "none"), CFG("ed_d2")>>,            \* late
+    Base \o <<STR("d2", "plain"), CFG("ed_d2"), CFG("ed_two"), MET("a", <<"U">>, "none", NoDims, "none")>>,  \* twice
+    Base \o <<CFG("ed_empty"), MET("a", <<"U">>, "none", NoDims, "none")>>,                         \* empty
+    Base \o <<CFG("ed_d2"), MET("a", <<"U">>, "none", NoDims, "none")>>,                            \* d2 missing
+    Base \o <<STR("d2", "plain"), CFG("ed_d2"), MET("d2", <<"U">>, "none", NoDims, "none")>>,        \* metric under entry dimension
+    Base \o <<MET("d2", <<"U">>, "none", NoDims, "none"), CFG("ed_d2")>>,
+    Base \o <<STR("s", "plain"), STR("s", "nasty")>>,
+    Base \o <<STR("s", "plain"), MET("s", <<"U">>, "none", NoDims, "none")>>,
+    Base \o <<MET("a", <<"U">>, "none", K1V1, "none"), MET("a", <<"F">>, "none", K1V1, "none")>>,
+    Base \o <<MET("a", <<"U">>, "none", NoDims, "none"), EMPTYV("_aws")>>,
+    <<TS("t1"), CFG("split"), MET("a", <<"U">>, "none", NoDims, "none")>>,                           \* d1 missing when configured
     <<CFG("unroutable"), STR("s", "nasty")>>,
     <<CFG("unroutable"), STR("s", "nasty"), MET("a", <<"U">>, "none", NoDims, "none"), MET("a", <<"U">>, "none", NoDims, "none")>>,
     <<TS("t1"), STR("d1", "plain"), MET("a", <<"U">>, "none", K1V1, "none")>>,
@@ -126,7 +138,12 @@ CallsE == {TS("t1"), TS("t0"), CFG("split"), CFG("unroutable"), CFG("ed_d2"), CF
 NextE(h) == CallsE
 \* simulation that is biased towards accepted entries: a valid prefix, then anything
 InitE == {<<>>, Base, <<CFG("split"), STR("d1", "plain"), STR("d2", "plain"), CFG("ed_two")>>}
-CallsE2 == {c \in CallsE : c.name \in {NoArg, "a", "b", "s"} /\ c.op # "ERR" /\ ~(c.op = "CFG" /\ c.arg = "ed_empty")}
-NextE2(h) == {c \in CallsE2 : \A i \in 1..Len(h) : h[i].name # c.name \/ c.name = NoArg \/ (c.op = "MET" /\ c.dims # <<>>)}
+ObsE2 == {<<"U">>, <<"F">>, <<"U", "NaN">>, <<"NaN">>, <<"Rep4", "F">>, <<"RepBig", "Rep0">>, <<"PInf", "U", "RepNaN">>, <<>>}
+CallsE2 == {TS("t1"), CFG("split"), CFG("ed_d2"), CFG("ed_two")}
+           \cup {STR(nm, sv) : nm \in {"a", "b", "s"}, sv \in {"plain", "nasty"}}
+           \cup {MET(nm, o, u, d, f) : nm \in {"a", "b", "s"}, o \in ObsE2, u \in Units, d \in {NoDims, K1V1, K1V2, K2K1}, f \in Flags}
+           \cup {EMPTYV(nm) : nm \in {"a", "b"}}
+\* a name is used once, except by metrics with per-metric dimensions (different split records)
+NextE2(h) == {c \in CallsE2 : c.name = NoArg \/ (c.op = "MET" /\ c.dims # <<>>) \/ \A i \in 1..Len(h) : h[i].name # c.name}
 Empty0 == {<<>>}
 =============================================================================
